@@ -304,14 +304,31 @@ def build_cases(tier):
         for fn, idx in zip(names, perm):
             files[fn] = extra[idx] + "\n"
         cases.append(dict(common, label="pruned_dir", source={"kind": "dir", "files": files}, tags={"source:dir", "pruning", f"definition_order:{''.join(map(str, perm))}"}))
+    # type system extensions (`extend input / enum / type`): a schema written with extensions IS the merged schema, whatever the source
+    from graphql import print_schema as _print_schema
+    ext_defs = ["extend input Filter { extOpt: Int extReq: ID! extKinds: [Kind!] }", "extend enum Kind { C }", "extend type User { nick: String! }",
+                "extend type Query { byKind(k: Kind!, f: Filter): [User!] }", "extend input Filter { secondExt: String }"]
+    ext_text = SCHEMA6 + "\n".join(ext_defs) + "\n"
+    merged_text = _print_schema(build_schema(ext_text)) + "\n"
+    eq = "query ByKind($k: Kind!, $f: Filter) { byKind(k: $k, f: $f) { id nick kind } users(filter: $f) { id } }\n"
+    common = dict(queries=eq, opset="extensions")
+    cases.append(dict(common, label="single_file", schema_text=merged_text, source={"kind": "file"}, tags={"source:file", "extensions:merged_by_hand"}))
+    cases.append(dict(common, label="extensions_single_file", schema_text=ext_text, source={"kind": "file"}, tags={"source:file", "extensions"}))
+    cases.append(dict(common, label="extensions_introspection", schema_text=ext_text, source={"kind": "introspection"}, tags={"source:introspection", "extensions"}))
+    for bn, en in (("a_base.graphql", "b_ext.graphql"), ("z_base.graphql", "b_ext.graphql"), ("base.graphql", "sub/ext.gql")):
+        cases.append(dict(common, label="extensions_dir", schema_text=ext_text, source={"kind": "dir", "files": {bn: SCHEMA6, en: "\n".join(ext_defs) + "\n"}}, tags={"source:dir", "extensions", f"files:{bn}+{en}"}))
+    cases.append(dict(common, label="extensions_dir", schema_text=ext_text, tags={"source:dir", "extensions", "files:one_per_extension"},
+                      source={"kind": "dir", "files": dict({"m_base.graphql": SCHEMA6}, **{f"{'az'[i % 2]}{i}.graphql": d + "\n" for i, d in enumerate(ext_defs)})}))
     # failures
     for mode in ("invalid_utf8_body", "latin1_html_body", "invalid_url", "status100", "status301", "status404", "status500", "non_json", "json_array", "no_data", "errors", "errors_with_data", "data_not_object", "data_null",
                  "data_without_schema", "truncated_schema", "schema_null"):
         cases.append(dict(label="introspection_failure", queries=OPSETS["ops1"], opset="ops1", source={"kind": "introspection", "answer": mode}, expect="IntrospectionError", tags={f"failure:{mode}"}))
     # headers / TLS flag
-    ENV = {"VERIF_TOK": "s3cret", "VERIF_DOLLAR": "$ecret-9f3a$1", "VERIF_REF": "$VERIF_TOK", "VERIF_SPACES": " padded "}
+    ENV = {"VERIF_TOK": "s3cret", "VERIF_DOLLAR": "$ecret-9f3a$1", "VERIF_REF": "$VERIF_TOK", "VERIF_SPACES": " padded ", "VERIF-DASH.dotted-name": "dashed-secret", "verif.lower.dots": "dotted-secret",
+           "9VERIF_DIGIT_FIRST": "digit-secret", "VERIF_é": "non-ascii-name-secret"}
     HVALS = {"lit": "Bearer lit", "dollar_mid": "a$b", "dollar_end": "cost$", "env": "$VERIF_TOK", "env_value_starts_with_dollar": "$VERIF_DOLLAR", "env_value_names_other_variable": "$VERIF_REF",
-             "env_spaces": "$VERIF_SPACES", "empty": ""}
+             "env_spaces": "$VERIF_SPACES", "empty": "", "env_name_dash_dot": "$VERIF-DASH.dotted-name", "env_name_lower_dots": "$verif.lower.dots",
+             "env_name_digit_first": "$9VERIF_DIGIT_FIRST", "env_name_non_ascii": "$VERIF_é"}
     resolve = lambda v: ENV[v[1:]] if v.startswith("$") else v   # the documented rule, applied once
     header_sets = [({"Authorization": "Bearer lit"}, {}, {"Authorization": "Bearer lit"}), ({"Authorization": "$VERIF_TOK", "X-Plain": "p"}, {"VERIF_TOK": "s3cret"}, {"Authorization": "s3cret", "X-Plain": "p"}), ({}, {}, {})]
     header_sets += [({"X-H": v}, ENV, {"X-H": resolve(v)}) for v in HVALS.values()]
